@@ -51,6 +51,27 @@ sqlite_seam.install(_SQL_MODULES)
 service_mod.nanoid = boot.sim_nanoid
 
 
+# observation only: log (and re-raise) errors of the reload/replay path, which callers swallow in fire-and-forget tasks
+from llama_agents.server._runtime import persistence_runtime as _pr  # noqa: E402
+
+_orig_cft = _pr.TickPersistenceDecorator.context_from_ticks
+
+
+async def _logged_context_from_ticks(self, workflow, run_id):
+    from .engine import _CURRENT_WORLD
+    try:
+        return await _orig_cft(self, workflow, run_id)
+    except Exception as e:  # noqa: BLE001
+        w = _CURRENT_WORLD[0]
+        if w is not None:
+            import re
+            w.trace.log("reload-error", run=run_id, exc=type(e).__name__, msg=re.sub(r"\d+", "N", str(e))[:100])
+        raise
+
+
+_pr.TickPersistenceDecorator.context_from_ticks = _logged_context_from_ticks
+
+
 class Incarnation:
     """One 'process': runtime stack + service + everything it spawns, all in one contextvars.Context."""
 
